@@ -64,7 +64,8 @@ func (bi *BasmInstance) bodyMacros(body *bmline.BasmBody) error {
 				}
 			}
 			body.Lines = append(body.Lines[:i], append(macroLines, body.Lines[i+1:]...)...)
-			i += len(macroLines)
+			// Continue with the line that follows the expansion
+			i += len(macroLines) - 1
 		}
 	}
 	return nil
